@@ -166,32 +166,200 @@ Proof.
   - destruct (mccoy n); eexists; reflexivity.
 Qed.
 
-(* worker 1 holds the McCoy task M between its pop and its re-queue; meanwhile the yielder A running on worker 0
-   yields and pops itself again.  The four queue operations bring the queue back to where it started, so the
-   schedule (w1 pop, w0 push A, w0 pop, w1 push M) can be repeated for ever: A busy-waits with qthread_yield()
-   for something the ready task M would do, and M never runs. *)
-Definition mccoy_cycle (M A : node) : list qop := [QDeq; QEnqY A; QDeq; QEnqY M].
+(* REGRESSION (rule before the fix: every worker pops the tail).  Worker 1 holds the McCoy task M between its pop
+   and its re-queue; meanwhile the yielder A running on worker 0 yields and pops itself again.  The four lock sections
+   bring the queue back to where it started, so the schedule (w1 pop, w0 push A, w0 pop, w1 push M) can be repeated
+   for ever: A busy-waits with qthread_yield() for something the ready task M would do, and M never runs. *)
+Definition mccoy_cycle (M A : node) : list wop := [WPop 1; WPushY A; WPop 0; WPushY M].
 
-Theorem mccoy_requeue_starvation_refuted :
+Lemma wrun_old_app : forall a b q0, fst (wrun_old q0 (a ++ b)) = fst (wrun_old (fst (wrun_old q0 a)) b).
+Proof.
+  induction a as [|o a IHa]; intros b q0; [reflexivity|]. cbn [app wrun_old].
+  destruct (wstep_old q0 o) as [q1 out]. specialize (IHa b q1).
+  destruct (wrun_old q1 (a ++ b)) as [x y]. destruct (wrun_old q1 a) as [x' y']. cbn [fst] in *. exact IHa.
+Qed.
+
+Theorem old_rule_starvation_cycle :
   exists (M A : node) (q : queue) (st : sys),
     mccoy M = true /\ mccoy A = false /\ exact q /\ items q = [M] /\
-    (* worker 1 does not run M but re-queues it at the head *)
+    (* under the old rule worker 1 does not run M but re-queues it at the head *)
     (exists st', finish_node st O 1 M = FCont st') /\
     (* one cycle returns the same queue; M is handed to worker 1 only, A is run again by worker 0 *)
-    qrun q (mccoy_cycle M A) = (q, [[M]; []; [A]; []]) /\
+    wrun_old q (mccoy_cycle M A) = (q, [[M]; []; [A]; []]) /\
     (* hence any number of cycles: M is never dequeued by worker 0 *)
-    forall k, fst (qrun q (concat (repeat (mccoy_cycle M A) k))) = q.
+    (forall k, fst (wrun_old q (concat (repeat (mccoy_cycle M A) k))) = q) /\
+    (* the same schedule under the new rule: worker 1 takes nothing, worker 0 gets M at its next pop *)
+    snd (wrun q [WPop 1; WPushY A; WPop 0]) = [[]; []; [M]].
 Proof.
   exists (mkNode 0 false true 0), (mkNode 1 false false 0), (mkQ [mkNode 0 false true 0] 1 0), (init_sys 1 0).
   repeat split.
   - eexists. reflexivity.
-  - induction k as [|k IH]; [reflexivity|].
-    cbn [repeat concat]. 
-    assert (Happ : forall a b q0, fst (qrun q0 (a ++ b)) = fst (qrun (fst (qrun q0 a)) b)).
-    { induction a as [|o a IHa]; intros b q0; [reflexivity|]. cbn [app qrun].
-      destruct (qstep q0 o) as [q1 out]. specialize (IHa b q1).
-      destruct (qrun q1 (a ++ b)) as [x y]. destruct (qrun q1 a) as [x' y']. cbn [fst] in *. exact IHa. }
-    rewrite Happ. exact IH.
+  - induction k as [|k IH]; [reflexivity|]. cbn [repeat concat]. rewrite wrun_old_app. exact IH.
+Qed.
+
+(* ---- McCoy hand-over under the new rule, for every interleaving of the workers of the shepherd ------------- *)
+Definition nm (l : list node) : Prop := Forall (fun n => mccoy n = false) l.
+Definition push_ok (o : wop) : Prop := match o with WPushY n | WPush n => mccoy n = false | _ => True end.
+Fixpoint count_pop0 (ops : list wop) : nat :=
+  match ops with [] => O | WPop O :: tl => S (count_pop0 tl) | _ :: tl => count_pop0 tl end.
+Fixpoint count_push (ops : list wop) : nat :=
+  match ops with [] => O | WPush _ :: tl => S (count_push tl) | _ :: tl => count_push tl end.
+
+Lemma dequeue_steal_sub : forall c v s v', exact v -> dequeue_steal c false v = (s, v') ->
+  (forall x, In x s -> In x (items v) /\ stl x = true) /\ (forall x, In x (items v') -> In x (items v)) /\ exact v'.
+Proof.
+  intros c v s v' Hex H. destruct (exact_dequeue_steal _ _ _ _ _ Hex H) as [Hex' Hall].
+  destruct (Z_lt_le_dec 0 (desired c v)) as [Hd|Hd].
+  - rewrite (dequeue_steal_spec c v Hex Hd) in H.
+    destruct (take_stl (Z.to_nat (desired c v)) (items v)) as [kp s0] eqn:E. inversion H; subst. cbn [items].
+    split; [|split; [|exact Hex']].
+    + intros x Hx. split; [eapply take_stl_stolen_in; eassumption|]. rewrite Forall_forall in Hall. auto.
+    + intros x Hx. eapply take_stl_kept_in; eassumption.
+  - unfold dequeue_steal in H. assert (Hd' : (0 <? desired c v) = false) by lia. rewrite Hd', andb_false_r in H.
+    inversion H; subst. split; [intros x []|]. split; [auto | exact Hex].
+Qed.
+
+Lemma nm_not_in : forall M l, mccoy M = true -> nm l -> ~ In M l.
+Proof. intros M l HM Hl Hin. unfold nm in Hl. rewrite Forall_forall in Hl. specialize (Hl M Hin). congruence. Qed.
+
+Lemma nm_app : forall a b, nm (a ++ b) <-> nm a /\ nm b.
+Proof. intros. unfold nm. apply Forall_app. Qed.
+
+Lemma nm_sub : forall a b, (forall x, In x a -> In x b) -> nm b -> nm a.
+Proof. intros a b H Hb. unfold nm in *. rewrite Forall_forall in *. auto. Qed.
+
+(* once M has left, it never shows up again (nothing pushed is a McCoy task) *)
+Lemma wrun_no_mccoy : forall ops q q' outs,
+  exact q -> nm (items q) -> Forall push_ok ops -> wrun q ops = (q', outs) ->
+  forall k, nm (nth k outs []).
+Proof.
+  induction ops as [|o tl IH]; intros q q' outs Hex Hnm Hok H k; cbn [wrun] in H.
+  - inversion H; subst. destruct k; constructor.
+  - inversion Hok as [|? ? Ho Htl]; subst.
+    destruct (wstep q o) as [q1 out0] eqn:E1. destruct (wrun q1 tl) as [q2 outs2] eqn:E2. inversion H; subst.
+    assert (Hstep : exact q1 /\ nm (items q1) /\ nm out0).
+    { destruct o as [w|n|n|c]; cbn [wstep push_ok] in *.
+      - destruct (dequeue_worker q w) as [o q1'] eqn:Ed.
+        pose proof (exact_dequeue_worker _ _ _ _ Hex Ed) as Hex1.
+        destruct (dequeue_worker_cases q w) as [E|[[l [n [Ei [_ E]]]]|[l [m [n [Ei [_ [_ E]]]]]]]]; rewrite E in Ed; inversion Ed; subst;
+          inversion E1; subst.
+        + split; [exact Hex1|]. split; [exact Hnm | constructor].
+        + rewrite Ei in Hnm. apply nm_app in Hnm. destruct Hnm as [Hl Hn]. split; [exact Hex1|]. split; [exact Hl | exact Hn].
+        + rewrite Ei in Hnm. apply nm_app in Hnm. destruct Hnm as [Hl Hn]. inversion Hn as [|? ? Hm Hn']; subst.
+          cbn [items]. split; [exact Hex1|]. split; [apply nm_app; split; auto | constructor; [exact Hm | constructor]].
+      - inversion E1; subst. split; [apply exact_enqueue_yielded; exact Hex|]. split; [constructor; assumption | constructor].
+      - inversion E1; subst. split; [apply exact_enqueue; exact Hex|].
+        split; [apply nm_app; split; [exact Hnm | constructor; [exact Ho | constructor]] | constructor].
+      - destruct (dequeue_steal c false q) as [s v'] eqn:Ed. inversion E1; subst.
+        destruct (dequeue_steal_sub _ _ _ _ Hex Ed) as [Hs [Hk Hex1]].
+        split; [exact Hex1|]. split; [eapply nm_sub; [exact Hk | exact Hnm] | eapply nm_sub; [|exact Hnm]; intros x Hx; apply Hs; exact Hx]. }
+    destruct Hstep as [Hex1 [Hnm1 Hout]].
+    destruct k as [|k]; cbn [nth]; [exact Hout|]. eapply IH; eassumption.
+Qed.
+
+Ltac five := split; [|split; [|split; [|split]]].
+
+(* one lock section on a queue  P ++ M :: R  (M = the single McCoy task, unstealable) *)
+Lemma wstep_decomp : forall q o P M R q' out,
+  exact q -> items q = P ++ M :: R -> mccoy M = true -> stl M = false -> nm P -> nm R -> push_ok o ->
+  wstep q o = (q', out) ->
+  exact q' /\
+  ((o = WPop O /\ R = [] /\ out = [M] /\ items q' = P) \/
+   (exists P' R', items q' = P' ++ M :: R' /\ nm P' /\ nm R' /\ nm out /\
+       (length R' + match o with WPop O => 1 | _ => 0 end <= length R + match o with WPush _ => 1 | _ => 0 end)%nat)).
+Proof.
+  intros q o P M R q' out Hex Hq HM HsM HP HR Hok H.
+  destruct o as [w|n|n|c]; cbn [wstep push_ok] in *.
+  - (* pop *)
+    destruct (dequeue_worker q w) as [o q1] eqn:Ed.
+    pose proof (exact_dequeue_worker _ _ _ _ Hex Ed) as Hex1.
+    destruct R as [|x R0 _] using rev_ind.
+    + (* M is the tail *)
+      destruct (dequeue_worker_cases q w) as [E|[[l [n [Ei [Hcase E]]]]|[l [m [n [Ei [Hmn [Hw E]]]]]]]]; rewrite E in Ed; inversion Ed; subst;
+        inversion H; subst.
+      * split; [exact Hex|]. right. exists P, []. five; [exact Hq | exact HP | constructor | constructor |]. destruct w as [|w]; cbn; [|lia].
+        (* worker 0 always takes the tail: this case is impossible *)
+        exfalso. rewrite dequeue_worker_0 in E.
+        match type of Hq with items ?qq = _ => destruct (dequeue_owner_items qq P M Hq) as [q'' [E' _]] end. rewrite E' in E. discriminate.
+      * rewrite Hq in Ei. apply app_inj_tail in Ei. destruct Ei as [-> ->].
+        destruct Hcase as [Hc| ->]; [congruence|]. split; [exact Hex1|]. left. repeat split; reflexivity.
+      * rewrite Hq in Ei. change (l ++ [m; n]) with (l ++ [m] ++ [n]) in Ei. rewrite app_assoc in Ei.
+        apply app_inj_tail in Ei. destruct Ei as [-> ->]. split; [exact Hex1|]. right.
+        apply nm_app in HP. destruct HP as [Hl Hm]. exists l, []. cbn [items]. five; [reflexivity | exact Hl | constructor | exact Hm |].
+        destruct w; [congruence | cbn; lia].
+    + (* the tail x is an ordinary task: every worker takes it *)
+      apply nm_app in HR. destruct HR as [HR0 Hx]. inversion Hx as [|? ? Hxm _]; subst.
+      assert (Hq' : items q = (P ++ M :: R0) ++ [x]) by (rewrite Hq, <- app_assoc; reflexivity).
+      destruct (dequeue_worker_cases q w) as [E|[[l [n [Ei [_ E]]]]|[l [m [n [Ei [Hmn [_ E]]]]]]]]; rewrite E in Ed; inversion Ed; subst;
+        inversion H; subst.
+      * (* nothing taken: only when the tail is a McCoy task *)
+        exfalso. unfold dequeue_worker in E. rewrite Hq', rev_app_distr in E. cbn [rev app] in E. rewrite Hxm in E. cbn [andb] in E.
+        discriminate.
+      * rewrite Hq' in Ei. apply app_inj_tail in Ei. destruct Ei as [<- <-]. split; [exact Hex1|]. right.
+        exists P, R0. cbn [items]. five; [reflexivity | exact HP | exact HR0 | constructor; [exact Hxm | constructor] |].
+        rewrite app_length. cbn [length]. destruct w as [|w]; lia.
+      * rewrite Hq' in Ei. change (l ++ [m; n]) with (l ++ [m] ++ [n]) in Ei. rewrite app_assoc in Ei.
+        apply app_inj_tail in Ei. destruct Ei as [_ <-]. congruence.
+  - inversion H; subst. split; [apply exact_enqueue_yielded; exact Hex|]. right. exists (n :: P), R.
+    cbn [enqueue_yielded items]. rewrite Hq. five; [reflexivity | constructor; assumption | exact HR | constructor | lia].
+  - inversion H; subst. split; [apply exact_enqueue; exact Hex|]. right. exists P, (R ++ [n]).
+    cbn [enqueue items]. rewrite Hq, <- app_assoc. five; [reflexivity | exact HP | apply nm_app; split; [exact HR | constructor; [exact Hok | constructor]] | constructor |].
+    rewrite app_length. cbn [length]. lia.
+  - (* steal: M is unstealable, it stays; what is taken is stealable hence not M *)
+    destruct (dequeue_steal c false q) as [s v'] eqn:Ed. inversion H; subst.
+    destruct (dequeue_steal_sub _ _ _ _ Hex Ed) as [Hs [Hk Hex1]]. split; [exact Hex1|]. right.
+    assert (Hout : nm out).
+    { unfold nm. rewrite Forall_forall. intros x Hx. destruct (Hs x Hx) as [Hin Hst]. rewrite Hq in Hin.
+      apply in_app_or in Hin. destruct Hin as [Hin|[<-|Hin]]; [| congruence |].
+      - unfold nm in HP. rewrite Forall_forall in HP. auto.
+      - unfold nm in HR. rewrite Forall_forall in HR. auto. }
+    destruct (Z_lt_le_dec 0 (desired c q)) as [Hd|Hd].
+    + rewrite (dequeue_steal_spec c q Hex Hd) in Ed. rewrite Hq, take_stl_app in Ed.
+      destruct (take_stl (Z.to_nat (desired c q)) P) as [kP sP] eqn:EP.
+      set (k2 := (Z.to_nat (desired c q) - length sP)%nat) in Ed.
+      assert (E2 : exists kR sR, take_stl k2 (M :: R) = (M :: kR, sR) /\ (forall x, In x kR -> In x R) /\ (length kR <= length R)%nat).
+      { destruct k2 as [|k2'].
+        - exists R, []. cbn [take_stl]. repeat split; auto.
+        - cbn [take_stl]. rewrite HsM. destruct (take_stl (S k2') R) as [kR sR] eqn:ER. exists kR, sR. repeat split.
+          + intros x Hx. eapply take_stl_kept_in; eassumption.
+          + destruct (take_stl_kept_count _ _ _ _ ER) as [_ Hn]. lia. }
+      destruct E2 as [kR [sR [E2 [Hsub Hlen]]]]. rewrite E2 in Ed. inversion Ed; subst. cbn [items].
+      exists kP, kR. five; [reflexivity | | | exact Hout | lia].
+      * eapply nm_sub; [|exact HP]. intros x Hx. eapply take_stl_kept_in; eassumption.
+      * eapply nm_sub; [exact Hsub | exact HR].
+    + unfold dequeue_steal in Ed. assert (Hd' : (0 <? desired c q) = false) by lia. rewrite Hd', andb_false_r in Ed.
+      inversion Ed; subst. exists P, R. five; [exact Hq | exact HP | exact HR | exact Hout | lia].
+Qed.
+
+(* For every interleaving of the workers of one shepherd (pops by any worker, yields, spawns, thieves), starting from a
+   queue P ++ M :: R that holds the single, unstealable McCoy task M:
+   (A) M is never handed to a worker other than worker 0 and never stolen;
+   (B) if worker 0 pops more often than |R| + (number of tail enqueues), one of its pops returns M.
+   A task running on worker 0 that busy-waits with qthread_yield() for main performs one such pop per yield. *)
+Theorem mccoy_handover_l : forall ops q P M R q' outs,
+  exact q -> items q = P ++ M :: R -> mccoy M = true -> stl M = false -> nm P -> nm R -> Forall push_ok ops ->
+  wrun q ops = (q', outs) ->
+  (forall k, In M (nth k outs []) -> nth_error ops k = Some (WPop O)) /\
+  ((length R + count_push ops < count_pop0 ops)%nat ->
+   exists k, nth_error ops k = Some (WPop O) /\ nth k outs [] = [M]).
+Proof.
+  induction ops as [|o tl IH]; intros q P M R q' outs Hex Hq HM HsM HP HR Hok H; cbn [wrun] in H.
+  - inversion H; subst. split; [intros k Hin; destruct k; destruct Hin | cbn; lia].
+  - inversion Hok as [|? ? Ho Htl]; subst.
+    destruct (wstep q o) as [q1 out0] eqn:E1. destruct (wrun q1 tl) as [q2 outs2] eqn:E2. inversion H; subst.
+    destruct (wstep_decomp q o P M R q1 out0 Hex Hq HM HsM HP HR Ho E1) as [Hex1 [[-> [-> [-> Hi]]]|[P' [R' [Hi [HP' [HR' [Hout Hlen]]]]]]]].
+    + (* handed to worker 0 now; afterwards M is gone *)
+      split.
+      * intros k Hin. destruct k as [|k]; [reflexivity|]. cbn [nth] in Hin. exfalso.
+        assert (Hn : nm (items q1)) by (rewrite Hi; exact HP).
+        pose proof (wrun_no_mccoy tl q1 q' outs2 Hex1 Hn Htl E2 k) as Hk. exact (nm_not_in M _ HM Hk Hin).
+      * intros _. exists O. split; reflexivity.
+    + destruct (IH q1 P' M R' q' outs2 Hex1 Hi HM HsM HP' HR' Htl E2) as [IHA IHB]. split.
+      * intros k Hin. destruct k as [|k]; cbn [nth] in Hin; [exfalso; exact (nm_not_in M _ HM Hout Hin)|].
+        cbn [nth_error]. apply IHA. exact Hin.
+      * intros Hc. destruct IHB as [k [Hk Hm]].
+        { destruct o as [[|w]|n|n|c]; cbn [count_pop0 count_push] in *; lia. }
+        exists (S k). split; assumption.
 Qed.
 
 (* ---- yield precedence (owner operations of one queue; thieves excluded: _partial) ------------- *)
@@ -283,3 +451,11 @@ Example ex_yield_wait_hyps :
   let rs := [mkRound [ex_n 9 true] true; mkRound [] false; mkRound [] true; mkRound [] false] in
   (length [ex_n 2 true; ex_n 3 true] + length (all_spawned rs) < length rs)%nat.
 Proof. vm_compute. lia. Qed.
+Example ex_handover_hyps :
+  let M := mkNode 0 false true 0 in
+  let q := mkQ [ex_n 7 true; M; ex_n 2 true; ex_n 3 false] 4 2 in
+  let ops := [WPop 1; WPushY (ex_n 3 false); WPop 0; WSteal 0; WPop 2; WPushY (ex_n 2 true); WPop 0; WPop 0] in
+  exact q /\ items q = [ex_n 7 true] ++ M :: [ex_n 2 true; ex_n 3 false] /\ Forall push_ok ops /\
+  (length [ex_n 2 true; ex_n 3 false] + count_push ops < count_pop0 ops)%nat /\
+  map (map (fun n => tid n)) (snd (wrun q ops)) = [[3%N]; []; [2%N]; [7%N]; [3%N]; []; [0%N]; [2%N]].
+Proof. vm_compute. repeat split; try lia; repeat constructor. Qed.
